@@ -4,7 +4,7 @@ package main
 //   - struct Options: field, kind, yaml tag
 //   - NewOptions: the composite literal's defaults
 //   - flagSet: flag.XxxVar(&opts.F, "name", <default>, usage) registrations (is <default> opts.F itself?)
-//     and the order of its statements as a stage list
+//     and the order of its statements as a stage list (the last one, behind flag.Parse(): `if flag.NArg() > 0 { …; os.Exit(2) }`, F31)
 //   - GetOptions: its first two statements (NewOptions, flagSet)
 //   - getEnv / loadCfg: the literal pieces the model depends on ("VFLOW_%s", "-", "_", strings.ToUpper; the loop over os.Args that
 //     recognises -config / --config / -config= / --config=, verbatim)
@@ -161,6 +161,20 @@ func genOptionsTbl(repo string) (genFile, error) {
 				case *ast.AssignStmt:
 					if len(s.Lhs) == 1 && goText(fset, s.Lhs[0]) == "flag.Usage" {
 						continue // help text only
+					}
+				case *ast.IfStmt:
+					// F31: `if flag.NArg() > 0 { fmt.Fprintf(os.Stderr, …); os.Exit(2) }` — a positional argument is refused.
+					// Exactly this shape: no init, no else, the body reports on stderr and ends the process with status 2.
+					if s.Init == nil && s.Else == nil && goText(fset, s.Cond) == "flag.NArg() > 0" && len(s.Body.List) == 2 {
+						rep, ok := s.Body.List[0].(*ast.ExprStmt)
+						if !ok {
+							break
+						}
+						call, ok := rep.X.(*ast.CallExpr)
+						if ok && goText(fset, call.Fun) == "fmt.Fprintf" && len(call.Args) >= 2 && goText(fset, call.Args[0]) == "os.Stderr" &&
+							goText(fset, s.Body.List[1]) == "os.Exit(2)" {
+							stage = ".refuseStray"
+						}
 					}
 				case *ast.ExprStmt:
 					call, ok := s.X.(*ast.CallExpr)
